@@ -202,6 +202,32 @@ def _work_long(task) -> core.Part:
     return p
 
 
+def _work_aligned(task) -> core.Part:
+    """Mid-size and maximum-size frames with flag/escape octets in the information field: pairs of cuts aligned with
+    those octets and middle chunks of 1..1024 octets (thresholds of 'large chunk' fast paths)."""
+    cfg, = task
+    from mc.props.C02 import CONTENTS
+
+    p = core.Part()
+    pool = X.frame_pool()
+    streams = list(X.midsize_streams(cfg[0]))
+    for cname in ("mix5e5d", "ramp"):
+        fr = RH.build_frame(0xA, 0, b"\x01", b"\x21", 0x13, CONTENTS[cname](2038))
+        streams.append((f"max2047({cname})+short", b"\x7e" + RH.wire(fr, cfg[0]) + b"\x7e" + RH.wire(pool["short"], cfg[0]) + b"\x7e"))
+    for label, S in streams:
+        fam = [("oneshot", [S])] + [(f"cut{i},{j}", X.split(S, (i, j))) for i, j in X.escape_aligned_cuts(S, 10)]
+        fam += [(f"fixed{k}", X.fixed(S, k)) for k in (63, 64, 65, 128, 256)]
+        for how, chunks in fam:
+            errs, frames = X.exec_errors(cfg, S, chunks)
+            _account(p, frames)
+            p.add("events", len(chunks))
+            if how == "oneshot" and frames:
+                p.add("nontrivial")
+            if errs:
+                _report(p, cfg, S, chunks, errs, label, how)
+    return p
+
+
 def main(run: core.Run) -> int:
     q = run.quick
     run.rule = ("every string over the reduced octet alphabets / every token sequence up to the bound, and every stream "
@@ -245,6 +271,7 @@ def main(run: core.Run) -> int:
     run.log(f"E3: {len(e3)} base streams")
     run.merge(par.pmap(_work_e3, e3, seed=run.seed))
     run.merge(par.pmap(_work_long, [(cfg, cfg[0]) for cfg in X.CFGS], seed=run.seed))
+    run.merge(par.pmap(_work_aligned, [(cfg,) for cfg in X.CFGS], seed=run.seed))
     tot = run.total
     tot.sample({"cfg": "stuffing=1,abort=0", "input": "7e" + X.F7.hex() + "7e", "returned": [X.F7.hex()], "is_valid": [True]})
     tot.sample({"tokens": "F h10 i10 F", "input": (b"\x7e" + X.F10 + b"\x7e").hex(), "note": "flag octet inside the information field"})
